@@ -5,7 +5,9 @@ import (
 	"fmt"
 	"io"
 	"testing"
+	"time"
 
+	"github.com/lightninglabs/lightning-node-connect/gbn"
 	"github.com/lightninglabs/lightning-node-connect/mailbox"
 )
 
@@ -103,6 +105,36 @@ func TestGenC07Misc(t *testing.T) {
 		}
 		q.stat("noise_parser_cases", 1)
 	}
+	// configuration values an application may pass (zero, negative, huge), then relay-delivered packets:
+	// the option setters guard against them, and nothing in the packet path may divide by or index with them
+	tmCases := 0
+	for _, freq := range []int{0, -1, 1, 1 << 40} {
+		for _, mult := range []int{0, -3, 1, 1 << 40} {
+			for _, boost := range []float32{0, -1, 0.5, 1e30} {
+				for _, static := range []time.Duration{-1, 0, time.Second} {
+					tmCases++
+					noPanic("c07:timeout-manager-panic", fmt.Sprintf("TimeoutManager(freq=%d mult=%d boost=%v static=%v) fed Sent/Received", freq, mult, boost, static), func() {
+						opts := []gbn.TimeoutOptions{gbn.WithTimeoutUpdateFrequency(freq), gbn.WithResendMultiplier(mult), gbn.WithBoostPercent(boost)}
+						if static >= 0 {
+							opts = append(opts, gbn.WithStaticResendTimeout(static))
+						}
+						m := gbn.NewTimeOutManager(nil, opts...)
+						m.Sent(&gbn.PacketSYN{N: 20}, false)
+						m.Received(&gbn.PacketSYN{N: 20})
+						for seq := uint8(0); seq < 4; seq++ {
+							m.Sent(&gbn.PacketData{Seq: seq}, false)
+							m.Received(&gbn.PacketACK{Seq: seq})
+							m.Sent(&gbn.PacketData{Seq: seq}, true)
+							m.Received(&gbn.PacketNACK{Seq: seq})
+							_ = m.GetResendTimeout()
+							_ = m.GetHandshakeTimeout()
+						}
+					})
+				}
+			}
+		}
+	}
+	q.stat("timeout_manager_option_cases", tmCases)
 	q.stat("distinct_nontrivial", count)
 	q.sample("stripJSONWrapper on every string of length <= 4 over {}\":,[]\\resu0 and random longer envelopes; ReadMessage / DoHandshake on random, truncated and extended byte strings")
 	o.line("DONE %d", count)
